@@ -38,7 +38,7 @@ def run(tier, seed):
         v.sample(rec)
     nt = sum(1 for r in recs if r['defined'] and (r['n'] > 1 or r['p'] > 0))
     if nt == 0:
-        raise MachineryError('vacuous run')
+        v.vacuous('vacuous run')
     cov = dict(states=out['run']['states'], transitions=out['run']['transitions'], traces_validated_against_impl=len(recs),
                evaluations=v.counters.get('evaluations', 0), distinct_nontrivial=nt, exhaustive=True,
                rule='TLC enumerates kind x n x sensitivity width x sign class of every scale parameter x sign class of the '
